@@ -100,9 +100,10 @@ def hook(interp, e, fr):
     if not sites:
         return NotHandled
     if depth == 0:
-        if fr.func is None or fr.defcls is None:
+        if fr.func is None:
             return NotHandled
-        key = (fr.module.relpath, f"{fr.defcls.name}.{fr.func.name}", comp_ordinal(fr.func, e))
+        qual = f"{fr.defcls.name}.{fr.func.name}" if fr.defcls is not None else fr.func.name  # method / module-level function
+        key = (fr.module.relpath, qual, comp_ordinal(fr.func, e))
         if key not in sites:
             return NotHandled
     if isinstance(e, (ast.ListComp, ast.GeneratorExp)) or len(e.generators) != 1 or e.generators[0].is_async:
